@@ -38,17 +38,17 @@ theorem unsigned_dtype_smallest (v : Int) (c : Int) (h : unsignedDtype v = .ok c
 /-- **Capacity, refusal**: a request whose largest possible output value (the largest requested number, the number
 of requested segments under `relabel`, MaximumFractionalValue for an unrescaled FRACTIONAL read, else 1) exceeds the
 output dtype is refused with a ValueError — for every type, every request, every dtype. -/
-theorem capacity_refused (st : Stored) (rq : Req) (hsub : ∀ s ∈ rq.segs, s ∈ st.segNums)
+theorem capacity_refused (st : Stored) (rq : Req) (hsub : ∀ s ∈ rq.segs, s ∈ st.segNums) (hnd : rq.segs.Nodup)
     (h : ceiling st rq > (chosenDtype st rq).maxVal) : readCore st rq = .error .value := by
-  rw [readCore_eq st rq hsub]; simp [h]
+  rw [readCore_eq st rq hsub hnd]; simp [h]
 
 /-- **Capacity, no other refusal by the check**: when the value fits, the request reaches the type-specific branch
 with exactly the dtype asked for. -/
-theorem capacity_accepted (st : Stored) (rq : Req) (hsub : ∀ s ∈ rq.segs, s ∈ st.segNums)
+theorem capacity_accepted (st : Stored) (rq : Req) (hsub : ∀ s ∈ rq.segs, s ∈ st.segNums) (hnd : rq.segs.Nodup)
     (h : ceiling st rq ≤ (chosenDtype st rq).maxVal) :
     readCore st rq = (if st.type = .labelmap then labelmapRead st rq (chosenDtype st rq)
                       else stackRead st rq (chosenDtype st rq) (willRescale st rq)) := by
-  rw [readCore_eq st rq hsub]
+  rw [readCore_eq st rq hsub hnd]
   have : ¬ ceiling st rq > (chosenDtype st rq).maxVal := by omega
   simp [this]
 
@@ -87,12 +87,13 @@ theorem default_dtype_smallest (st : Stored) (rq : Req) (hd : rq.dtype = none) :
 
 /-- A request naming a segment number the object does not have is refused. -/
 theorem unknown_segment_refused (st : Stored) (rq : Req) (s : Nat) (hs : s ∈ rq.segs) (hn : s ∉ st.segNums) :
-    readCore st rq = .error .value := by
-  unfold readCore
-  have : (rq.segs.all fun s => st.segNums.contains s) = false := by
-    rw [List.all_eq_false]
-    exact ⟨s, hs, by simpa using hn⟩
-  simp only [this, Bool.not_false, ↓reduceIte]
+    readCore st rq = .error .value :=
+  readCore_not_admitted st rq (fun h => hn (h.1 s hs))
+
+/-- **A request naming a segment number twice is refused** (tie T: T8p), for every segmentation type and every option — a
+repeated number has no single "1-based position in the request", and a label-map pixel cannot be set in two channels. -/
+theorem repeated_segment_refused (st : Stored) (rq : Req) (h : ¬ rq.segs.Nodup) : readCore st rq = .error .value :=
+  readCore_not_admitted st rq (fun h' => h h'.2)
 
 /-! ## LABELMAP (tie T: T8c) -/
 
@@ -136,10 +137,10 @@ largest output value fits the dtype, and every pixel holds the requested segment
 its 1-based position in the request under `relabel` — and 0 otherwise (`outVal`).  A stack value the object has
 no frame for reads as zeros. -/
 theorem labelmap_combined_value (st : Stored) (rq : Req) (wf : WfLabel st) (hc : rq.combine = true)
-    (hne : rq.segs ≠ []) (hsub : ∀ s ∈ rq.segs, s ∈ st.segNums)
+    (hne : rq.segs ≠ []) (hnd : rq.segs.Nodup) (hsub : ∀ s ∈ rq.segs, s ∈ st.segNums)
     (hcap : ceiling st rq ≤ (chosenDtype st rq).maxVal) :
     readCore st rq = .ok (.combined (rq.keys.map fun k => (rawLabels st k).map (outVal rq.segs rq.relabel))) := by
-  rw [capacity_accepted st rq hsub hcap]
+  rw [capacity_accepted st rq hsub hnd hcap]
   simp only [wf.type, ↓reduceIte]
   apply labelmapRead_combined st rq _ wf hc hne
   unfold ceiling at hcap
@@ -171,7 +172,7 @@ theorem labelmap_stacked_channel (st : Stored) (rq : Req) (wf : WfLabel st) (hc 
     have hnf : (st.type == SegType.fractional) = false := by rw [wf.type]; rfl
     simp only [hc, Bool.false_eq_true, ↓reduceIte, hnf, Bool.false_and]
     exact one_le_maxVal _
-  rw [capacity_accepted st rq hsub hcap]
+  rw [capacity_accepted st rq hsub hnd hcap]
   simp only [wf.type, ↓reduceIte]
   rw [labelmapRead_stacked st rq _ wf hc hne hlen]
   congr 2
@@ -193,20 +194,20 @@ requested segment at the `j`-th requested stack value (all zero when the object 
 order; for a rescaled FRACTIONAL read every entry means value / MaximumFractionalValue (an exact rational here; the code
 divides in the float output dtype, so its array agrees with this up to float rounding — the correspondence compares with
 tolerance 2^-20). -/
-theorem stacked_channel (st : Stored) (rq : Req) (wf : WfStack st) (hc : rq.combine = false)
+theorem stacked_channel (st : Stored) (rq : Req) (wf : WfStack st) (hc : rq.combine = false) (hnd : rq.segs.Nodup)
     (hsub : ∀ s ∈ rq.segs, s ∈ st.segNums) (hcap : ceiling st rq ≤ (chosenDtype st rq).maxVal)
     (hfl : willRescale st rq = true → (chosenDtype st rq).isFloat = true) :
     readCore st rq = .ok (.stacked (if willRescale st rq then st.mfv else 1)
       (rq.keys.map fun k => rq.segs.map fun s => (segPlane st k s).map Int.ofNat)) := by
-  rw [capacity_accepted st rq hsub hcap]
+  rw [capacity_accepted st rq hsub hnd hcap]
   simp only [wf.type, ↓reduceIte]
   exact stackRead_stacked st rq _ wf hc hcap hfl
 
 /-- a rescaled FRACTIONAL read into a non-float dtype is refused -/
 theorem rescaled_requires_float (st : Stored) (rq : Req) (hnl : st.type ≠ .labelmap)
-    (hsub : ∀ s ∈ rq.segs, s ∈ st.segNums) (hw : willRescale st rq = true)
+    (hsub : ∀ s ∈ rq.segs, s ∈ st.segNums) (hnd : rq.segs.Nodup) (hw : willRescale st rq = true)
     (hnf : (chosenDtype st rq).isFloat = false) : readCore st rq = .error .value := by
-  rw [readCore_eq st rq hsub]
+  rw [readCore_eq st rq hsub hnd]
   by_cases h : ceiling st rq > (chosenDtype st rq).maxVal
   · simp [h]
   · simp only [h, ↓reduceIte, hnl]
@@ -216,9 +217,9 @@ theorem rescaled_requires_float (st : Stored) (rq : Req) (hnl : st.type ≠ .lab
 
 /-- combining a FRACTIONAL segmentation without rescaling is refused -/
 theorem fractional_combine_requires_rescale (st : Stored) (rq : Req) (hty : st.type = .fractional)
-    (hsub : ∀ s ∈ rq.segs, s ∈ st.segNums) (hc : rq.combine = true) (hr : rq.rescale = false) :
+    (hsub : ∀ s ∈ rq.segs, s ∈ st.segNums) (hnd : rq.segs.Nodup) (hc : rq.combine = true) (hr : rq.rescale = false) :
     readCore st rq = .error .value := by
-  rw [readCore_eq st rq hsub]
+  rw [readCore_eq st rq hsub hnd]
   by_cases h : ceiling st rq > (chosenDtype st rq).maxVal
   · simp [h]
   · simp only [h, ↓reduceIte, hty]
@@ -232,11 +233,11 @@ transform): an uncombined, unrescaled read of a BINARY / FRACTIONAL object into 
 stored one raises when a frame it uses holds a value above the dtype's maximum (only possible for objects whose values
 exceed what their own attributes promise; well-formed objects never get here, see `stacked_channel`). -/
 theorem stored_value_beyond_dtype_refused (st : Stored) (rq : Req) (hnl : st.type ≠ .labelmap)
-    (hsub : ∀ s ∈ rq.segs, s ∈ st.segNums) (hc : rq.combine = false) (hw : willRescale st rq = false)
+    (hsub : ∀ s ∈ rq.segs, s ∈ st.segNums) (hnd : rq.segs.Nodup) (hc : rq.combine = false) (hw : willRescale st rq = false)
     (hact : rangeCheckActive st.bitsStored (chosenDtype st rq) = true) (f : SFrame) (hf : f ∈ st.frames)
     (hk : f.key ∈ rq.keys) (hs : f.seg ∈ rq.segs) (p : Nat) (hp : p ∈ f.pix)
     (hbig : (p : Int) > (chosenDtype st rq).maxVal) : readCore st rq = .error .value := by
-  rw [readCore_eq st rq hsub]
+  rw [readCore_eq st rq hsub hnd]
   by_cases hcap : ceiling st rq > (chosenDtype st rq).maxVal
   · simp [hcap]
   · simp only [hcap, ↓reduceIte, hnl, hw]
@@ -272,7 +273,7 @@ theorem overlap_refused (st : Stored) (rq : Req) (wf : WfStack st) (hc : rq.comb
     (hcap : ceiling st rq ≤ (chosenDtype st rq).maxVal) (hskip : rq.skipOverlap = false)
     (k : Nat) (hk : k ∈ rq.keys) (s₁ s₂ i : Nat) (h1 : s₁ ∈ rq.segs) (h2 : s₂ ∈ rq.segs) (hne : s₁ ≠ s₂)
     (hc1 : covers st k s₁ i) (hc2 : covers st k s₂ i) : readCore st rq = .error .runtime := by
-  rw [capacity_accepted st rq hsub hcap]
+  rw [capacity_accepted st rq hsub hnd hcap]
   simp only [wf.type, ↓reduceIte]
   have hw : willRescale st rq = false := by unfold willRescale; simp [hc]
   rw [hw]
@@ -291,7 +292,7 @@ theorem combined_value (st : Stored) (rq : Req) (wf : WfStack st) (hc : rq.combi
     ∃ out, readCore st rq = .ok (.combined out) ∧ out.length = rq.keys.length ∧ (∀ fr ∈ out, fr.length = st.npix) ∧
       ∀ j (hj : j < rq.keys.length) (hj' : j < out.length) i, i < st.npix →
         ∃ v, (out[j])[i]? = some v ∧ IsCombinedValue st rq.segs rq.relabel rq.keys[j] i v := by
-  rw [capacity_accepted st rq hsub hcap]
+  rw [capacity_accepted st rq hsub hnd hcap]
   simp only [wf.type, ↓reduceIte]
   have hw : willRescale st rq = false := by unfold willRescale; simp [hc]
   rw [hw, stackRead_combined_ok st rq _ wf hc hnd hsub hbin hfr hcap hno]
@@ -354,7 +355,7 @@ theorem fractional_nonbinary_combine_refused (st : Stored) (rq : Req) (hty : st.
     (hs : f.seg ∈ rq.segs) (p : Nat) (hp : p ∈ f.pix) (h0 : p ≠ 0) (h1 : p ≠ st.mfv) :
     ∃ e, readCore st rq = .error e := by
   by_cases hsub : ∀ s ∈ rq.segs, s ∈ st.segNums
-  · rw [readCore_eq st rq hsub]
+  · rw [readCore_eq st rq hsub hnd]
     by_cases hcap : ceiling st rq > (chosenDtype st rq).maxVal
     · exact ⟨.value, by simp [hcap]⟩
     · simp only [hcap, ↓reduceIte, hty]
@@ -377,20 +378,7 @@ theorem fractional_nonbinary_combine_refused (st : Stored) (rq : Req) (hty : st.
         unfold stackRead
         rw [stackDecision_eq]
         exact ⟨.value, by simp [hc, hr', hty, bind, Except.bind]⟩
-  · have : ∃ s ∈ rq.segs, s ∉ st.segNums := by
-      apply Classical.byContradiction
-      intro hne
-      apply hsub
-      intro s hs'
-      apply Classical.byContradiction
-      intro hn
-      exact hne ⟨s, hs', hn⟩
-    obtain ⟨s, hs', hn⟩ := this
-    unfold readCore
-    have : (rq.segs.all fun s => st.segNums.contains s) = false := by
-      rw [List.all_eq_false]
-      exact ⟨s, hs', by simpa using hn⟩
-    exact ⟨.value, by simp only [this, Bool.not_false, ↓reduceIte]⟩
+  · exact ⟨.value, readCore_not_admitted st rq (fun h => hsub h.1)⟩
 
 /-! ## Construction: stacked mask → label map -/
 
@@ -513,23 +501,26 @@ theorem stored_sources_are_known (st : Stored) (hcov : RefsCover st) (keys : Lis
 /-- **Known ⇒ read, assertion or not**: when every requested value is known to the reference tables (or the caller
 asserts), the entry point is exactly `_get_pixels_by_seg_frame` on the request, over the object's frames (over no
 frames for an unreferenced instance under the assertion) … -/
-theorem asserted_or_known_reads (st : Stored) (mode : Mode) (a : Bool) (rq : Req) (h1 : rq.segs ≠ [])
+theorem asserted_or_known_reads (st : Stored) (mode : Mode) (a : Bool) (rq : Req)
+    (h0 : sourceIndexingRefused st mode rq.ignoreSpatial = false) (h1 : rq.segs ≠ [])
     (h2 : rq.keys ≠ []) (h3 : ∀ k ∈ rq.keys, k ≠ 0) (hu : framesUnique st = true)
+    (hsi : st.type = .labelmap ∨ st.segIndexed = true)
     (hm : a = true ∨ missingRefused st mode rq.keys = false) :
     SegRead.read st mode a rq = readCore (effective st mode) rq :=
-  read_eq_readCore st mode a rq h1 h2 h3 hu hm
+  read_eq_readCore st mode a rq h0 h1 h2 h3 hu hsi hm
 
 /-- **The positive companion — referenced but frameless reads as empty WITHOUT the assertion**: by source instance,
 when all requested instances are referenced, the read is not refused for want of the assertion; the plane of a
 referenced instance that has no frame is all zero (`rawLabels` / `segPlane`), so it contributes zeros to every
 result theorem above. -/
-theorem referenced_frameless_reads_empty (st : Stored) (rq : Req) (h1 : rq.segs ≠ []) (h2 : rq.keys ≠ [])
-    (h3 : ∀ k ∈ rq.keys, k ≠ 0) (hu : framesUnique st = true) (href : ∀ k ∈ rq.keys, k ∈ st.refs) :
+theorem referenced_frameless_reads_empty (st : Stored) (rq : Req)
+    (h0 : sourceIndexingRefused st .bySource rq.ignoreSpatial = false) (h1 : rq.segs ≠ []) (h2 : rq.keys ≠ [])
+    (h3 : ∀ k ∈ rq.keys, k ≠ 0) (hu : framesUnique st = true) (hsi : st.type = .labelmap ∨ st.segIndexed = true) (href : ∀ k ∈ rq.keys, k ∈ st.refs) :
     SegRead.read st .bySource false rq = readCore st rq ∧
     ∀ k, (∀ f ∈ st.frames, f.key ≠ k) →
       rawLabels st k = List.replicate st.npix 0 ∧ ∀ s, segPlane st k s = List.replicate st.npix 0 := by
   constructor
-  · have := read_eq_readCore st .bySource false rq h1 h2 h3 hu (Or.inr (by
+  · have := read_eq_readCore st .bySource false rq h0 h1 h2 h3 hu hsi (Or.inr (by
       simp only [missingRefused, List.any_eq_false]
       intro k hk; simpa using href k hk))
     simpa [effective] using this
@@ -562,12 +553,76 @@ theorem listed_but_not_source_is_unknown_by_frame (st : Stored) (uid : Nat) (hl 
 /-- by source frame with an instance no frame derives from, under the assertion: no frame is used, every plane is
 empty -/
 theorem unreferenced_instance_asserted_reads_empty (st : Stored) (uid : Nat) (hn : uid ∉ st.frameSrcs) (rq : Req)
-    (h1 : rq.segs ≠ []) (h2 : rq.keys ≠ []) (h3 : ∀ k ∈ rq.keys, k ≠ 0) (hu : framesUnique st = true) :
+    (h0 : sourceIndexingRefused st (.frame uid) rq.ignoreSpatial = false) (h1 : rq.segs ≠ []) (h2 : rq.keys ≠ []) (h3 : ∀ k ∈ rq.keys, k ≠ 0) (hu : framesUnique st = true)
+    (hsi : st.type = .labelmap ∨ st.segIndexed = true) :
     SegRead.read st (.frame uid) true rq = readCore { st with frames := [] } rq := by
-  have := read_eq_readCore st (.frame uid) true rq h1 h2 h3 hu (Or.inl rfl)
+  have := read_eq_readCore st (.frame uid) true rq h0 h1 h2 h3 hu hsi (Or.inl rfl)
   have hc : st.frameSrcs.contains uid = false := by simpa using hn
   simp only [effective, hc, Bool.false_eq_true, ↓reduceIte] at this
   exact this
+
+/-! ## Indexing by source is only offered when it means something (tie T: T8q)
+
+`get_pixels_by_source_instance` / `get_pixels_by_source_frame` apply `_check_indexing_with_source_frames` before anything
+else (`Gen.indexingChecked`); the other three entry points do not. -/
+
+/-- **When reading by source is refused**: iff the object is TILED_FULL, or a frame derives from several source frames, or the
+object does not state for every source that spatial locations are preserved and the caller did not pass
+`ignore_spatial_locations`; the entry points by dimension index, as volume and as total pixel matrix never refuse on
+these grounds. -/
+theorem source_indexing_refused_iff (st : Stored) (mode : Mode) (ign : Bool) :
+    sourceIndexingRefused st mode ign = true ↔
+      (mode = .bySource ∨ ∃ uid, mode = .frame uid) ∧
+        (st.tiledFull = true ∨ st.singleSource = false ∨ (ign = false ∧ st.locPreserved ≠ some true)) := by
+  rw [sourceIndexingRefused_eq]
+  cases mode <;> cases st.tiledFull <;> cases st.singleSource <;> cases ign <;> rcases st.locPreserved with _ | _ | _ <;>
+    simp
+
+/-- … and such a request is refused whatever else it says -/
+theorem source_indexing_refused (st : Stored) (mode : Mode) (a : Bool) (rq : Req)
+    (h : sourceIndexingRefused st mode rq.ignoreSpatial = true) : SegRead.read st mode a rq = .error .runtime := by
+  unfold SegRead.read
+  simp only [h, ↓reduceIte]
+
+/-- only the two entry points that index by source apply the check, first, with the caller's flag (T8q) -/
+theorem source_indexing_checked_where :
+    indexingChecked = [("get_pixels_by_source_instance", "first", "ignore_spatial_locations"),
+                       ("get_pixels_by_source_frame", "first", "ignore_spatial_locations"),
+                       ("get_volume", "none", ""), ("get_pixels_by_dimension_index_values", "none", ""),
+                       ("get_total_pixel_matrix", "none", "")] := by decide
+
+/-- **`ignore_spatial_locations` lifts that one refusal and changes nothing else**: with the flag, an object that does not
+state that locations are preserved (or says they are not) is read exactly as the same object saying YES is read without it;
+on an object that says YES the flag has no effect at all. -/
+theorem ignore_spatial_locations_only_lifts_the_refusal (st : Stored) (mode : Mode) (a : Bool) (rq : Req) (x : Option Bool) :
+    SegRead.read { st with locPreserved := x } mode a { rq with ignoreSpatial := true } =
+      SegRead.read { st with locPreserved := some true } mode a { rq with ignoreSpatial := false } := by
+  unfold SegRead.read
+  have h : sourceIndexingRefused { st with locPreserved := x } mode true =
+      sourceIndexingRefused { st with locPreserved := some true } mode false := by
+    simp only [sourceIndexingRefused_eq]
+    cases mode <;> cases st.tiledFull <;> cases st.singleSource <;> rfl
+  simp only [h]
+  cases mode with
+  | frame uid =>
+    by_cases hc : st.frameSrcs.contains uid = true <;>
+      simp only [hc, framesUnique, entryRefuses, framesAdmitted, effective, readCore, labelmapRead, stackRead, remapTableT,
+        Bool.false_eq_true, ↓reduceIte] <;> rfl
+  | _ => simp only [framesUnique, entryRefuses, effective, readCore, labelmapRead, stackRead, remapTableT] <;> rfl
+
+/-- **An object without a segment dimension cannot be read by segment** (what the code does today, see docs/C02.md "open"):
+a BINARY / FRACTIONAL object whose frame table has no ReferencedSegmentNumber column — the Segment Identification macro
+only in the shared functional groups, or not used as a dimension index — has every read refused. -/
+theorem segment_number_not_indexed_refused (st : Stored) (mode : Mode) (a : Bool) (rq : Req) (hty : st.type ≠ .labelmap)
+    (hsi : st.segIndexed = false) : ∃ e, SegRead.read st mode a rq = .error e := by
+  unfold SegRead.read
+  by_cases e0 : sourceIndexingRefused st mode rq.ignoreSpatial = true
+  · exact ⟨.runtime, by simp only [e0, ↓reduceIte]⟩
+  by_cases e1 : rq.segs.isEmpty = true
+  · exact ⟨.value, by simp only [e0, e1, Bool.false_eq_true, ↓reduceIte]⟩
+  by_cases e2 : rq.keys.isEmpty = true
+  · exact ⟨.value, by simp only [e0, e1, e2, Bool.false_eq_true, ↓reduceIte]⟩
+  · exact ⟨.key, by simp [e0, e1, e2, hty, hsi]⟩
 
 /-- … in which a stack value without any stored frame reads as an all-zero plane (label maps). -/
 theorem absent_plane_reads_empty (st : Stored) (k : Nat) (h : ∀ f ∈ st.frames, f.key ≠ k) (segs : List Nat)
@@ -791,11 +846,11 @@ theorem exStored_wf : WfLabel exStored :=
 
 example : readCore exStored { keys := [2, 1, 5], segs := [700, 3], combine := true, relabel := false, rescale := true, skipOverlap := false, dtype := none } =
     .ok (.combined [[0, 700, 700, 3], [3, 0, 700, 0], [0, 0, 0, 0]]) := by
-  rw [labelmap_combined_value exStored _ exStored_wf rfl (by decide) (by decide) (by decide)]
+  rw [labelmap_combined_value exStored _ exStored_wf rfl (by decide) (by decide) (by decide) (by decide)]
   decide
 
 example : readCore exStored { keys := [1], segs := [700, 3], combine := true, relabel := true, rescale := true, skipOverlap := false, dtype := some .i8 } = .ok (.combined [[2, 0, 1, 0]]) := by
-  rw [labelmap_combined_value exStored _ exStored_wf rfl (by decide) (by decide) (by decide)]
+  rw [labelmap_combined_value exStored _ exStored_wf rfl (by decide) (by decide) (by decide) (by decide)]
   decide
 
 example : readCore exStored { keys := [1], segs := [700, 3], combine := false, relabel := false, rescale := true, skipOverlap := false, dtype := some .bool } = .ok (.stacked 1 [[[0, 0, 1, 0], [1, 0, 0, 0]]]) := by
@@ -804,7 +859,7 @@ example : readCore exStored { keys := [1], segs := [700, 3], combine := false, r
 
 /-- 700 does not fit int8: refused -/
 example : readCore exStored { keys := [1], segs := [700, 3], combine := true, relabel := false, rescale := true, skipOverlap := false, dtype := some .i8 } = .error .value :=
-  capacity_refused exStored _ (by decide) (by decide)
+  capacity_refused exStored _ (by decide) (by decide) (by decide)
 
 
 /-! A BINARY object: segments 1 and 2 overlap in pixel 1 of the plane at 7, segment 3 is stored only at 8. -/
@@ -826,7 +881,7 @@ theorem exBin_binary (keys segs : List Nat) : UsedBinary exBin keys segs := by
 
 example : readCore exBin { keys := [8, 7, 9], segs := [3, 1], combine := false, relabel := false, rescale := true, skipOverlap := false, dtype := none } =
     .ok (.stacked 1 [[[0, 0, 1], [1, 0, 0]], [[0, 0, 0], [1, 1, 0]], [[0, 0, 0], [0, 0, 0]]]) := by
-  rw [stacked_channel exBin _ exBin_wf rfl (by decide) (by decide) (by decide)]
+  rw [stacked_channel exBin _ exBin_wf rfl (by decide) (by decide) (by decide) (by decide)]
   decide
 
 /-- segments 1 and 2 share pixel 1 at stack value 7: refused … -/
@@ -881,8 +936,8 @@ theorem exFrac_wf : WfStack exFrac :=
 rounding), reversed order, the frameless referenced source 9 reads as zeros without any assertion -/
 example : SegRead.read exFrac .bySource false { keys := [9, 7], segs := [2, 1], combine := false, relabel := false, rescale := true, skipOverlap := false, dtype := none } =
     .ok (.stacked 100 [[[0, 0], [0, 0]], [[0, 25], [50, 100]]]) := by
-  rw [(referenced_frameless_reads_empty exFrac _ (by decide) (by decide) (by decide) (by decide) (by decide)).1,
-    stacked_channel exFrac _ exFrac_wf rfl (by decide) (by decide) (by decide)]
+  rw [(referenced_frameless_reads_empty exFrac _ (by decide) (by decide) (by decide) (by decide) (by decide) (by decide) (by decide)).1,
+    stacked_channel exFrac _ exFrac_wf rfl (by decide) (by decide) (by decide) (by decide)]
   decide
 
 /-- an instance the object does not reference is refused without the assertion … -/
@@ -892,9 +947,9 @@ example : ∃ e, SegRead.read exFrac .bySource false { keys := [7, 5], segs := [
 /-- … and a rescaled read into an integer dtype, or raw values into int8 (100 fits, so the capacity check passes;
 into bool it does not) -/
 example : readCore exFrac { keys := [7], segs := [1], combine := false, relabel := false, rescale := true, skipOverlap := false, dtype := some .u8 } = .error .value :=
-  rescaled_requires_float exFrac _ (by decide) (by decide) (by decide) (by decide)
+  rescaled_requires_float exFrac _ (by decide) (by decide) (by decide) (by decide) (by decide)
 
 example : readCore exFrac { keys := [7], segs := [1], combine := false, relabel := false, rescale := false, skipOverlap := false, dtype := some .bool } = .error .value :=
-  capacity_refused exFrac _ (by decide) (by decide)
+  capacity_refused exFrac _ (by decide) (by decide) (by decide)
 
 end HdVerif.C02
